@@ -174,5 +174,29 @@ def run(ctx, quick):
             ctx.report(f'{st}:fault:{"+".join(x.split()[1] for x in what)}',
                        f'stage {st}, worker {w} fails {pt} its work by {m}: ' + '; '.join(what),
                        {'stage': st, 'worker': w, 'point': pt, 'mode': m})
+    # a complete file of an EARLIER run already stands at the output location; the run that is to replace it fails
+    stale_src = {'precompute': 'stats.h5', 'refmarkers': 'refm.h5', 'pmask': 'mask.h5', 'pmarkers': 'pm.h5'}
+    jobs, meta2 = [], []
+    for st, src in stale_src.items():
+        if not (base / src).exists() or st not in workers:
+            continue
+        d = ctx.tmpdir(f'sf_{st}_stale_')
+        args, outp = job_for(st, base, ref, d)
+        shutil.copy(base / src, outp)
+        prefix, keys = STAGES[st]
+        pp = d / 'plan.json'
+        json.dump({'rules': [{'point': f'{prefix}.mid', 'match': workers[st][0], 'fault': 'raise'}]}, open(pp, 'w'))
+        jobs.append({'job': {'stage': st, 'args': args, 'plan': str(pp)}})
+        meta2.append((st, outp, d))
+    for (st, outp, d), o in zip(meta2, sub.run_stage_jobs(ctx, jobs)):
+        ctx.count({'stage': st, 'kind': 'stale_output_then_failure'}, nontrivial=True)
+        if o['ok']:
+            raise MachineryError(f'stage {st}: the injected failure (stale output case) did not fail the run')
+        acc, why = next_stage_accepts(st, outp, base, ref, d)
+        if acc:
+            bad += 1
+            ctx.report(f'{st}:fault:stale-output-survives',
+                       f'stage {st}: the run fails, and the complete file an earlier run had written to the same output '
+                       f'location is still there and is accepted by the next stage', {'stage': st, 'kind': 'stale_output'})
     ctx.sample({'stage_plan': [meta[0][0], meta[0][1], meta[0][2], meta[0][3]], 'raised': not outs[0]['ok']})
     ctx.part('stages', fault_plans=len(plans), workers={k: len(v) for k, v in workers.items()}, bad=bad)
